@@ -150,6 +150,11 @@ func TestC06_HandlePktReplay(t *testing.T) {
 	dst := netip.MustParseAddrPort("52.199.194.44:443")
 	rapid.Check(t, func(rt *rapid.T) {
 		p := c06GenQuicPlan(rt)
+		c06GenContinuation(rt, p, true) // the flow's history goes on after the first verdict
+		second := false
+		for _, f := range p.Flight {
+			second = second || f != 0
+		}
 		t0 := time.Now()
 		w := c06NewWorld()
 		defer w.restore()
@@ -158,9 +163,20 @@ func TestC06_HandlePktReplay(t *testing.T) {
 		completeAt, poisoned := -1, false
 		used := make([]bool, len(p.Datagrams))
 		var relayedIdx []int
-		lastClean := -1
+		lastClean := [2]int{-1, -1}
+		lost := 0
 		reorderedAfterCorruption := false
 		for i, d := range p.Datagrams {
+			if p.Events[i] == "endpoint_lost" {
+				// the UDP endpoint of the flow goes away (health check / NAT expiry) while the
+				// compacted sniffer session is still alive: later Initials are sniffed again.
+				for _, k := range []UdpEndpointKey{{Src: src, Dst: dst}, {Src: src}} {
+					if ue, ok := DefaultUdpEndpointPool.Get(k); ok && ue != nil {
+						_ = DefaultUdpEndpointPool.Remove(k, ue)
+						lost++
+					}
+				}
+			}
 			in := append([]byte(nil), d...)
 			decision := ClassifyUdpFlow(src, dst, in).EnsureSnifferSession()
 			rr := &bpfRoutingResult{Outbound: uint8(consts.OutboundUserDefinedMin)}
@@ -197,15 +213,15 @@ func TestC06_HandlePktReplay(t *testing.T) {
 				}
 				used[m] = true
 				if p.Corrupt[m] == "" {
-					if m < lastClean {
+					if m < lastClean[p.Flight[m]] {
 						if !poisoned {
-							rt.Fatalf("REPLAY: buffered datagram %d was relayed after datagram %d: ingress order not preserved (flight %v, relayed so far %v)", m, lastClean, p.Ranges, relayedIdx)
+							rt.Fatalf("REPLAY: buffered datagram %d was relayed after datagram %d: ingress order not preserved (flight %v, relayed so far %v)", m, lastClean[p.Flight[m]], p.Ranges, relayedIdx)
 						}
 						// after a foreign/corrupted datagram on the same 4-tuple the order of the
 						// remaining ones is not demanded (UDP gives no such guarantee); counted.
 						reorderedAfterCorruption = true
 					}
-					lastClean = max(lastClean, m)
+					lastClean[p.Flight[m]] = max(lastClean[p.Flight[m]], m)
 				}
 				relayedIdx = append(relayedIdx, m)
 			}
@@ -219,11 +235,44 @@ func TestC06_HandlePktReplay(t *testing.T) {
 		w.conn.mu.Unlock()
 		outcome := "all_relayed"
 		v2 := p.Version == c06QuicV2
+		// What is still withheld sits in the live sniffer session of the flow. Waiting is
+		// legitimate only while that buffer does not hold the whole ClientHello: once it
+		// does, the verdict is final and everything must have been handed on.
+		tailComplete, heldInSession := false, 0
+		firstClean := p.Datagrams[0]
+		for j := range p.Datagrams {
+			if p.Corrupt[j] == "" && p.Flight[j] == 0 {
+				firstClean = p.Datagrams[j]
+				break
+			}
+		}
+		if ps := DefaultPacketSnifferSessionMgr.Get(NewPacketSnifferKey(src, dst, firstClean)); ps != nil {
+			ps.Mu.Lock()
+			var tail [][2]int
+			if dd := ps.Data(); len(dd) > 1 {
+				for _, h := range dd[1:] {
+					heldInSession++
+					for j := range p.Datagrams {
+						if p.Corrupt[j] == "" && p.Flight[j] == 0 && bytes.Equal(h, p.Datagrams[j]) {
+							tail = append(tail, p.Ranges[j]...)
+							break
+						}
+					}
+				}
+			}
+			ps.Mu.Unlock()
+			tailComplete = c06Covered(tail, len(p.Hello))
+		}
+		if !poisoned && !second && !stalled && len(p.Datagrams)-relayed != heldInSession {
+			rt.Fatalf("BUFFER MISMATCH: %d of %d datagrams of an intact flight were not relayed but the flow's sniffer session buffers %d (fewer: datagrams disappeared; more: an already relayed datagram is still buffered and would be replayed again)", len(p.Datagrams)-relayed, len(p.Datagrams), heldInSession)
+		}
 		switch {
 		case relayed == len(p.Datagrams):
 		case stalled:
 			outcome = "stalled(inconclusive)"
-		case poisoned || completeAt < 0:
+		case second:
+			outcome = "second_connection_on_same_tuple(earlier session may be dropped)"
+		case !tailComplete:
 			outcome = "still_waiting(incomplete_or_corrupted_flight)"
 		case p.Want == "" && !v2 && vkKnown("F-C06-3"):
 			outcome = "withheld(known F-C06-3)"
@@ -240,10 +289,10 @@ func TestC06_HandlePktReplay(t *testing.T) {
 		if ue, ok := DefaultUdpEndpointPool.Get(UdpEndpointKey{Src: src, Dst: dst}); ok && ue != nil {
 			domain = ue.SniffedDomain
 		}
-		if domain != "" && (p.Want == "" || !c06SameName(domain, p.Want)) {
-			rt.Fatalf("WRONG NAME: endpoint carries sniffed domain %q, the flight carries %q", domain, p.Want)
+		if domain != "" && !(p.Want != "" && c06SameName(domain, p.Want)) && !(second && p.Want2 != "" && c06SameName(domain, p.Want2)) {
+			rt.Fatalf("WRONG NAME: endpoint carries sniffed domain %q, the flight carries %q (second connection: %q)", domain, p.Want, p.Want2)
 		}
-		if outcome == "all_relayed" && !poisoned && completeAt >= 0 && p.Want != "" && domain == "" && !(v2 && vkKnown("F-C06-1")) && !stalled {
+		if outcome == "all_relayed" && !poisoned && !second && completeAt >= 0 && p.Want != "" && domain == "" && !(v2 && vkKnown("F-C06-1")) && !stalled {
 			rt.Fatalf("MUST FIND: complete flight carrying %q (version %#x) was relayed without a sniffed domain", p.Want, p.Version)
 		}
 		key := ""
@@ -256,6 +305,7 @@ func TestC06_HandlePktReplay(t *testing.T) {
 		vkCase("C06.handlepkt", key, func() any {
 			return map[string]any{"version": fmt.Sprintf("%#x", p.Version), "want": p.Want, "datagrams": len(p.Datagrams), "ranges": fmt.Sprint(p.Ranges), "corrupt": p.Corrupt, "relayed": relayed, "relay_order": fmt.Sprint(relayedIdx), "domain": domain, "outcome": outcome}
 		}, "outcome:"+outcome, fmt.Sprintf("version:%#x", p.Version), fmt.Sprintf("datagrams:%d", min(len(p.Datagrams), 5)), fmt.Sprintf("domain_found:%v", domain != ""),
-			fmt.Sprintf("reordered_after_corruption:%v", reorderedAfterCorruption), "variant:real_handlePkt_on_minimal_ControlPlane")
+			fmt.Sprintf("reordered_after_corruption:%v", reorderedAfterCorruption), fmt.Sprintf("history_after_first_flight:%d", min(len(p.Datagrams)-p.Primary, 4)), fmt.Sprintf("endpoints_lost:%d", min(lost, 3)),
+			fmt.Sprintf("second_connection:%v", second), "variant:real_handlePkt_on_minimal_ControlPlane")
 	})
 }
